@@ -160,8 +160,18 @@ func (ce *CEnv) resolveType(te TypeExpr) types.Type {
 
 func (ce *CEnv) te() *TypeEnc { return ce.u.te }
 
-// coerce converts an untyped constant to type t.
+// coerce converts an untyped constant (or the nil literal) to type t.
 func (ce *CEnv) coerce(v CVal, t types.Type) CVal {
+	if v.T.Sort == "nil" && t != nil {
+		switch ce.te().sortOf(t) {
+		case SSlice:
+			return CVal{T: nilSlice, Ty: t}
+		case SIface:
+			return CVal{T: nilIface, Ty: t}
+		case SInt:
+			return CVal{T: intConst(0), Ty: t}
+		}
+	}
 	if v.Ty != nil || v.C == nil {
 		return v
 	}
@@ -798,6 +808,18 @@ func (ce *CEnv) call(e *ECall) CVal {
 		region, es := ce.elemRegion(sl.Elem())
 		rowS := arraySort(bvSort(64), es)
 		return CVal{T: mk(rowS, "select", ce.u.heapGet(ce.heap, region), sBase(x.T)), Ty: types.NewArray(sl.Elem(), 0)}
+	case "has":
+		// has(m, k): key k is present in map m
+		m := ce.eval(e.Args[0])
+		mt, ok := m.Ty.Underlying().(*types.Map)
+		if !ok {
+			efail("has: not a map")
+		}
+		k := ce.eval(e.Args[1])
+		if k.Ty == nil {
+			k = ce.coerce(k, mt.Key())
+		}
+		return CVal{T: mkAnd(mkNot(mkEq(m.T, intConst(0))), ce.u.mapHas(ce.heap, m.T, mt, k.T)), Ty: types.Typ[types.Bool]}
 	case "sameBase":
 		a, b := ce.eval(e.Args[0]), ce.eval(e.Args[1])
 		if a.T.Sort != SSlice || b.T.Sort != SSlice {
